@@ -43,12 +43,14 @@ type C42Body struct {
 	YieldOps []string `json:"yield_ops"`
 	Seed     uint64   `json:"sched_seed"`
 	Sched    []int    `json:"sched,omitempty"`
+	PCT      int      `json:"pct"` // 0 = random walk, d>0 = priority-based strategy of depth d
 	MemTable uint64   `json:"mem_table"`
 }
 
 func (C42) Generate(seed uint64, tier string) *core.Scenario {
 	r := core.NewRand(seed)
 	b := C42Body{Seed: r.Uint64()}
+	b.PCT = []int{0, 0, 2, 3, 4, 5}[r.Intn(6)]
 	b.Part = []string{"blob", "blob", "stack"}[r.Intn(3)]
 	b.Backend = []string{"local", "local", "inmem"}[r.Intn(3)]
 	b.NTasks = r.Range(2, 4)
@@ -117,6 +119,7 @@ func (C42) Execute(t *testing.T, sc *core.Scenario) *core.Result {
 
 	ch := core.NewChooser(b.Seed, b.Sched)
 	s := core.NewSched(ch)
+	s.PCTDepth = b.PCT
 	s.KeepTrace = len(b.Sched) > 0
 	s.OnRelease = func(t *core.Task) { sos.SetActor(t.Actor) }
 	sos.LockWait = func() bool { return s.YieldHere("flock-wait") }
